@@ -62,7 +62,9 @@ func C19(c *fw.Ctx) {
 		c.Violate(r)
 	}
 	// ---- (1) command lines, in-process through main ----------------------
-	names := []string{"missing.txt", "nosuch", "missing.bnx", "a.bn", "a.BN", "a.bnx", "a.txt", "a", "a.bn.txt", ".bn", "a.b.bn", "dir.bn/a", "sub/a.bn", "missing.bn", "a.Bn", "a.bn ", "bn", "a.bn/"}
+	names := []string{"missing.txt", "nosuch", "missing.bnx", "a.bn", "a.BN", "a.bnx", "a.txt", "a", "a.bn.txt", ".bn", "a.b.bn", "dir.bn/a", "sub/a.bn", "missing.bn", "a.Bn", "a.bn ", "bn", "a.bn/",
+		// names an option parser would read as options or as the end of options
+		"--", "-", "-dash.bn", "--dash.bn", "-x", "-version", "--version", "-h", "--help", "-.bn", "--.bn", "-=.bn", "-a=b.bn"}
 	for _, name := range names {
 		for extra := 0; extra <= 2; extra++ {
 			if !c.Mine() {
@@ -71,6 +73,9 @@ func C19(c *fw.Ctx) {
 			args := []string{name}
 			for i := 0; i < extra; i++ {
 				args = append(args, fmt.Sprintf("x%d", i))
+			}
+			if extra == 1 && strings.HasPrefix(name, "a.b") {
+				args = []string{"--", name} // an end-of-options marker is an argument like any other
 			}
 			files := map[string]string{}
 			if !strings.HasPrefix(name, "missing") && name != "nosuch" {
